@@ -226,6 +226,32 @@ int main(int argc, char **argv)
 			printf("NOTE deep%u=history:%ld,longest-code:%d\n", li, lens[li], maxlen);
 			probe_all();
 		}
+	} else if (!strcmp(VF.space, "stairs")) {
+		/* histories in which K symbols have K pairwise different counts (symbol k sent k+1 times), so that the leaves and the
+		 * internal nodes together carry several hundred different frequencies at one moment: every frequency class in use */
+		static const int Ks[] = { 20, 60, 120, 180, 220, 250, 280, 314 };
+		unsigned ki;
+		int order;
+		for (ki = 0; ki < sizeof Ks / sizeof *Ks; ++ki)
+		for (order = 0; order < 3; ++order) {
+			int K = Ks[ki], k, r, x, distinct = 0;
+			static unsigned char seen[65536];
+			if (!vf_case("lh1 staircase history: %d symbols with counts 1..%d, order %d, then each of 314", K, K, order)) continue;
+			enc_reset();
+			if (order == 0) {
+				for (k = 0; k < K; ++k) for (r = 0; r <= k; ++r) enc_symbol(k, (unsigned) (k * 13 + r) % 4096);
+			} else if (order == 1) {
+				/* round r sends every symbol whose count is still short */
+				for (r = 0; r < K; ++r) for (k = r; k < K; ++k) enc_symbol(k, (unsigned) (k * 13 + r) % 4096);
+			} else {
+				for (k = K - 1; k >= 0; --k) for (r = 0; r <= K - 1 - k; ++r) enc_symbol(313 - k, (unsigned) (k * 7 + r) % 4096);
+			}
+			memset(seen, 0, sizeof seen);
+			for (x = 0; x < LH1_T; ++x) if (TREE.freq[x] < 65536 && !seen[TREE.freq[x]]) { seen[TREE.freq[x]] = 1; ++distinct; }
+			printf("NOTE stairs%d.%d=symbols:%ld,distinct-frequencies:%d,rebuilds:%ld\n", K, order, E.nsyms, distinct, TREE.rebuilds);
+			check_now("lh1-output", "staircase history");
+			probe_all();
+		}
 	} else if (!strcmp(VF.space, "pos")) {
 		/* every upper distance code x low bits {0,63} x lengths {3,60}, after prefixes of 0, 1, 70 and 4095..4098 bytes */
 		static const int pres[] = { 0, 1, 70, 4094, 4095, 4096, 4097, 4098, 8191, 8193 };
